@@ -1940,9 +1940,13 @@ def split_pad_to_sub_pad(op, arch, nng):
     pad_tensor2 = create_const_tensor(
             f"{pad_tensor.name}_sub", pad_shape, pad_dtype, pad_value, quantization=quantization)
 
-    pad_tensor.values[3] = [0, 0]
+    # the paddings constant of the op may be shared with other PAD operators: work on a copy instead of changing it in place
+    pad_tensor1 = create_const_tensor(
+            f"{pad_tensor.name}_main", pad_shape, pad_dtype, pad_tensor.values.copy(), quantization=quantization)
+    pad_tensor1.values[3] = [0, 0]
     pad_tensor2.values[0] = [0, 0]
 
+    op.set_input_tensor(pad_tensor1, 1)
     op.set_input_tensor(pad_sub_out, 0)
     pad_sub.set_output_tensor(pad_sub_out)
     pad_sub.set_input_tensor(pad_tensor2, 1)
